@@ -616,3 +616,49 @@ func c09r4(rc *core.RC) {
 		rc.Check(len(ldiff) == 0, key+"/labels", b.bs.Stmt.Pos(), "the two modes name the same bytes in their case labels (differences: %s)", core.FmtBytes(ldiff))
 	}
 }
+
+// ---- C09.R5 the "need more data?" predicate looks only at received bytes ----
+
+func c09r5(rc *core.RC) {
+	p := rc.P
+	n := 0
+	for _, fd := range p.Funcs("decoder") {
+		if fd.Body == nil {
+			continue
+		}
+		info := p.Info(fd)
+		ast.Inspect(fd.Body, func(m ast.Node) bool {
+			call, ok := m.(*ast.CallExpr)
+			if !ok || core.CalleeName(info, call) != "unicode/utf8.FullRune" && core.CalleeName(info, call) != "utf8.FullRune" {
+				return true
+			}
+			se, ok := core.Unparen(call.Args[0]).(*ast.SliceExpr)
+			if !ok {
+				return true
+			}
+			f := core.FieldOf(info, se.X)
+			if f == nil || f.Name() != "buf" {
+				return true
+			}
+			n++
+			rc.CallSites++
+			rc.Touch(p.FuncName(fd))
+			key := p.FuncName(fd) + "/FullRune-operand"
+			good := false
+			if se.High != nil {
+				if hf := core.FieldOf(info, se.High); hf != nil && hf.Name() == "length" {
+					good = true
+				}
+			}
+			if good {
+				rc.OK(key, call.Pos(), "the incomplete-sequence test is limited to the bytes received so far (s.length)")
+			} else {
+				rc.Bad(key, call.Pos(), "utf8.FullRune decides whether the window must be refilled, but its operand %s extends beyond the received data (the bytes behind s.length are zero): a multi-byte character cut by a chunk boundary looks complete and is replaced by U+FFFD", core.Src(p.Fset, call.Args[0]))
+			}
+			return true
+		})
+	}
+	if n < 1 {
+		rc.Unknown("decoder/FullRune-sites", token.NoPos, "no utf8.FullRune test on the stream window found")
+	}
+}
